@@ -29,11 +29,9 @@ CB = "CircularBuffer::"
 TWINS = [
     (CB + "get", CB + "get_mut"), (CB + "front", CB + "front_mut"), (CB + "back", CB + "back_mut"),
     (CB + "nth_front", CB + "nth_front_mut"), (CB + "nth_back", CB + "nth_back_mut"),
-    (CB + "as_slices", CB + "as_mut_slices"),
     (CB + "front_maybe_uninit", CB + "front_maybe_uninit_mut"), (CB + "back_maybe_uninit", CB + "back_maybe_uninit_mut"),
     (CB + "get_maybe_uninit", CB + "get_maybe_uninit_mut"),
     ("<CircularBuffer<N, T> as Index<usize>>::index", "<CircularBuffer<N, T> as IndexMut<usize>>::index_mut"),
-    ("Drain::as_slices", "Drain::as_mut_slices"),
 ]
 
 R = lambda s: s  # noqa
@@ -42,6 +40,7 @@ R = lambda s: s  # noqa
 def run(ctx, progs):
     ctx.explanation = EXPLANATION
     ctx.rule("DERIV1", "forwarders have the reviewed shape with pass-through arguments")
+    ctx.rule("VIEW2", "the two-piece views: contiguous form ([lo,hi), empty), wrapped form ([lo,N), [0,hi)) of the same lo/hi; the interval is the occupied region; returned in order")
     ctx.rule("NONE1", "None only over edges establishing N==0 / size==0 / index>=size; Some only under index<size / size>0")
     ctx.rule("TWIN", "&/&mut accessor pairs: equal event skeletons modulo mutability [twin]")
     ctx.rule("KIND1", "index-kind inference: physical positions and logical indices/lengths are never compared, and never stand in for each other")
@@ -49,6 +48,11 @@ def run(ctx, progs):
         deriv1(ctx, prog, cfg)
         none1(ctx, prog, cfg)
         shapes.viewcmp1(ctx, prog, cfg)
+        # the two-piece views, each decided on its own (this replaces the sibling comparison of the as_slices pairs):
+        # both forms denote the same circular interval, it is the occupied region, the pieces are returned in order
+        from .. import lenrule
+
+        lenrule.view2(ctx, prog, cfg)
         from .. import kinds
 
         kinds.run(ctx, prog, cfg)
